@@ -39,3 +39,8 @@ mk MC_dev_fewer.cfg       Spec "$INV" 2 NK12 K4 SetsD  1 0 2 1 1 1 0 AllV  GoodR
 mk MC_dev_oldset.cfg      Spec "$INV" 2 NK23 K4 SetsA  2 1 2 1 2 2 0 ChgV  SetR  1 0 FALSE BugOldSet=TRUE
 mk MC_dev_stalesv.cfg     Spec "$INV" 1 NK2  K4 SetsA  2 1 2 1 1 2 3 IdxV  NoAdv 2 0 FALSE StaleSv=TRUE
 mk MC_dev_keepforever.cfg Spec "$INV" 2 NK12 K4 SetsC2 2 1 1 1 1 1 0 NoAdv GoodR 1 1 TRUE  BugKeepForever=TRUE
+# behaviour generators (switches = how the code under test behaves: StaleSv)
+#                          depth NN key  keys sets   H D W  R L Bh Base advV advR adv rst timer
+mk Sim_4a.cfg SimSpec 70   4 NK4   K6 SetsS  4 2 10 1 2 2  2   AllV AllR 8   1  FALSE StaleSv=TRUE
+mk Sim_4b.cfg SimSpec 70   4 NK4   K6 SetsT  4 2 10 1 2 2  2   AllV AllR 8   1  FALSE StaleSv=TRUE
+mk Sim_7.cfg  SimSpec 110  7 NK7   K9 SetsU  4 2 10 1 2 2  2   AllV AllR 10  1  FALSE StaleSv=TRUE
